@@ -444,7 +444,9 @@ def call_semantics(ctx: Ctx):
         return cached
     res = {"undecided": None, "findings": {"result": [], "args": [], "errors": []}}
     T0 = A.Sym("str", "TEXT0")
-    fields = {"user_id": A.Sym("int", "FIELD:user_id"), "country": A.Sym("str", "FIELD:country"), "flag": True, "extra": None}
+    # one field of every kind a caller may pass (opaque and concrete): conversions that only touch some kinds must show
+    fields = {"user_id": A.Sym("int", "FIELD:user_id"), "country": A.Sym("str", "FIELD:country"), "flag": True, "extra": None,
+              "ratio": 2.0, "score": 0.5, "big": 10 ** 30, "label": A.Tmpl.lit("x"), "pair": A.AList([1, A.Tmpl.lit("a")], "tuple")}
     try:
         runs = explore(ctx, [T0], then_call=fields)
     except Undecided as e:
